@@ -50,11 +50,11 @@ def cfg(name, comment, N, NVal, NGrid, MaxDepth, MaxLevel, keeps, acts, tree, em
         f.write(s)
 
 TABLE = [
-    {'name': 'RetainState_mc.cfg', 'comment': 'exhaustive, ALL actions together: block + 2 components + 1 pool id, 2 parameters x 2 values, nesting <= 2 (quick)', 'N': 4, 'NVal': 2, 'NGrid': 2, 'MaxDepth': 2, 'MaxLevel': 4, 'keeps': 'KeepsSmall', 'acts': 'ActsAll', 'tree': 'A'},
+    {'name': 'RetainState_mc.cfg', 'comment': 'exhaustive, ALL actions together: block + 2 components + 3 pool ids, 2 parameters x 2 values, nesting <= 2 (quick)', 'N': 6, 'NVal': 2, 'NGrid': 2, 'MaxDepth': 2, 'MaxLevel': 4, 'keeps': 'KeepsSmall', 'acts': 'ActsAll', 'tree': 'A'},
     {'name': 'RetainState_mc_thorough.cfg', 'comment': 'exhaustive, ALL actions together, deeper (thorough)', 'N': 4, 'NVal': 2, 'NGrid': 2, 'MaxDepth': 2, 'MaxLevel': 6, 'keeps': 'KeepsTwo', 'acts': 'ActsAll', 'tree': 'A'},
     {'name': 'RetainState_mcP.cfg', 'comment': 'exhaustive, parameters focus: block > component, scopes and assignments only (quick)', 'N': 2, 'NVal': 2, 'NGrid': 2, 'MaxDepth': 2, 'MaxLevel': 6, 'keeps': 'KeepsTwo', 'acts': 'ActsParams', 'tree': 'D'},
     {'name': 'RetainState_mcP_thorough.cfg', 'comment': 'exhaustive, parameters focus: block > 2 components (shared definitions), nesting 3, all keep-sets (thorough)', 'N': 3, 'NVal': 2, 'NGrid': 2, 'MaxDepth': 3, 'MaxLevel': 5, 'keeps': 'KeepsFull', 'acts': 'ActsParams', 'tree': 'A'},
-    {'name': 'RetainState_mcG.cfg', 'comment': 'exhaustive, grid/cache focus: assembly > block > component, nesting 3 (quick)', 'N': 3, 'NVal': 2, 'NGrid': 2, 'MaxDepth': 3, 'MaxLevel': 7, 'keeps': 'KeepsNone', 'acts': 'ActsGrid', 'tree': 'B'},
+    {'name': 'RetainState_mcG.cfg', 'comment': 'exhaustive, grid/cache focus: assembly > block > component, nesting 3 (quick)', 'N': 3, 'NVal': 2, 'NGrid': 2, 'MaxDepth': 3, 'MaxLevel': 6, 'keeps': 'KeepsNone', 'acts': 'ActsGrid', 'tree': 'B'},
     {'name': 'RetainState_mcG_thorough.cfg', 'comment': 'exhaustive, grid/cache focus, 3 grid values, deeper (thorough)', 'N': 3, 'NVal': 2, 'NGrid': 3, 'MaxDepth': 3, 'MaxLevel': 7, 'keeps': 'KeepsNone', 'acts': 'ActsGrid', 'tree': 'B'},
     {'name': 'RetainState_mcC.cfg', 'comment': 'exhaustive, copy/read-only focus: block > component + 2 pool ids (quick)', 'N': 4, 'NVal': 2, 'NGrid': 2, 'MaxDepth': 1, 'MaxLevel': 5, 'keeps': 'KeepsSmall', 'acts': 'ActsCopy', 'tree': 'D'},
     {'name': 'RetainState_mcC_thorough.cfg', 'comment': 'exhaustive, copy/read-only focus: block > 2 components + 3 pool ids (thorough)', 'N': 6, 'NVal': 2, 'NGrid': 2, 'MaxDepth': 1, 'MaxLevel': 5, 'keeps': 'KeepsSmall', 'acts': 'ActsCopy', 'tree': 'A'},
@@ -62,13 +62,13 @@ TABLE = [
     {'name': 'RetainState_emitP_thorough.cfg', 'comment': 'edge emission, parameters focus, 5 actions deep (thorough)', 'N': 2, 'NVal': 2, 'NGrid': 2, 'MaxDepth': 2, 'MaxLevel': 6, 'keeps': 'KeepsTwo', 'acts': 'ActsParams', 'tree': 'D', 'emit': True},
     {'name': 'RetainState_emitG.cfg', 'comment': 'edge emission, grid/cache focus: assembly (axial bounds) > block (hex pitch) (quick)', 'N': 2, 'NVal': 2, 'NGrid': 2, 'MaxDepth': 3, 'MaxLevel': 6, 'keeps': 'KeepsNone', 'acts': 'ActsGrid', 'tree': 'E', 'emit': True},
     {'name': 'RetainState_emitG_thorough.cfg', 'comment': 'edge emission, grid/cache focus (thorough)', 'N': 3, 'NVal': 2, 'NGrid': 2, 'MaxDepth': 3, 'MaxLevel': 6, 'keeps': 'KeepsNone', 'acts': 'ActsGrid', 'tree': 'B', 'emit': True},
-    {'name': 'RetainState_emitC.cfg', 'comment': 'edge emission, copy/read-only focus (quick)', 'N': 4, 'NVal': 2, 'NGrid': 2, 'MaxDepth': 1, 'MaxLevel': 4, 'keeps': 'KeepsTwo', 'acts': 'ActsCopy', 'tree': 'D', 'emit': True},
+    {'name': 'RetainState_emitC.cfg', 'comment': 'edge emission, copy/read-only focus (quick)', 'N': 4, 'NVal': 2, 'NGrid': 2, 'MaxDepth': 1, 'MaxLevel': 4, 'keeps': 'KeepsNone', 'acts': 'ActsCopy', 'tree': 'D', 'emit': True},
     {'name': 'RetainState_emitC_thorough.cfg', 'comment': 'edge emission, copy/read-only focus (thorough)', 'N': 6, 'NVal': 2, 'NGrid': 2, 'MaxDepth': 1, 'MaxLevel': 4, 'keeps': 'KeepsSmall', 'acts': 'ActsCopy', 'tree': 'A', 'emit': True},
     {'name': 'RetainState_emitP2_thorough.cfg', 'comment': 'edge emission, parameters focus: block > 2 components sharing definitions, all keep-sets (thorough)', 'N': 3, 'NVal': 2, 'NGrid': 2, 'MaxDepth': 2, 'MaxLevel': 4, 'keeps': 'KeepsFull', 'acts': 'ActsParams', 'tree': 'A', 'emit': True},
     {'name': 'RetainState_mcP2_thorough.cfg', 'comment': 'exhaustive, parameters focus, deep: block > component, nesting 3, 6 actions (thorough)', 'N': 2, 'NVal': 2, 'NGrid': 2, 'MaxDepth': 3, 'MaxLevel': 7, 'keeps': 'KeepsSmall', 'acts': 'ActsParams', 'tree': 'D'},
     {'name': 'RetainState_asbuilt_grid.cfg', 'comment': 'the grid backup AS BUILT (one slot): TLC must refute ExitRestoresGrid (selftest only; no VIEW: as built the snapshots are not determined by the backups)', 'N': 2, 'NVal': 2, 'NGrid': 2, 'MaxDepth': 2, 'MaxLevel': 7, 'keeps': 'KeepsNone', 'acts': 'ActsAsBuilt', 'tree': 'D', 'grid': 'single', 'pickle': 'fresh', 'only': ['ExitRestoresGrid']},
     {'name': 'RetainState_asbuilt_serial.cfg', 'comment': 'pickle AS BUILT (the copy keeps the serial): TLC must refute SerialsUnique (selftest only)', 'N': 4, 'NVal': 2, 'NGrid': 2, 'MaxDepth': 1, 'MaxLevel': 3, 'keeps': 'KeepsNone', 'acts': 'ActsAsBuilt', 'tree': 'D', 'grid': 'stack', 'pickle': 'kept', 'only': ['SerialsUnique']},
-    {'name': 'RetainState_mcD.cfg', 'comment': 'exhaustive, database focus: write / load / loadReadOnly / copies, block > component + 6 pool ids (quick)', 'N': 8, 'NVal': 2, 'NGrid': 2, 'MaxDepth': 1, 'MaxLevel': 6, 'keeps': 'KeepsNone', 'acts': 'ActsDb', 'tree': 'D'},
+    {'name': 'RetainState_mcD.cfg', 'comment': 'exhaustive, database focus: write / load / loadReadOnly / copies, block > component + 6 pool ids (quick)', 'N': 8, 'NVal': 2, 'NGrid': 2, 'MaxDepth': 1, 'MaxLevel': 5, 'keeps': 'KeepsNone', 'acts': 'ActsDb', 'tree': 'D'},
     {'name': 'RetainState_mcD_thorough.cfg', 'comment': 'exhaustive, database focus, deeper (thorough)', 'N': 10, 'NVal': 2, 'NGrid': 2, 'MaxDepth': 1, 'MaxLevel': 7, 'keeps': 'KeepsNone', 'acts': 'ActsDb', 'tree': 'D'},
     {'name': 'RetainState_emitR.cfg', 'comment': 'edge emission, read-only family: assembly > block > component made read-only, every mutator (quick + thorough)', 'N': 3, 'NVal': 2, 'NGrid': 2, 'MaxDepth': 1, 'MaxLevel': 3, 'keeps': 'KeepsNone', 'acts': 'ActsRO', 'tree': 'B', 'emit': True},
     {'name': 'RetainState_emitR_thorough.cfg', 'comment': 'edge emission, read-only family with copies: assembly > block > 2 components + pool (thorough)', 'N': 8, 'NVal': 2, 'NGrid': 2, 'MaxDepth': 1, 'MaxLevel': 4, 'keeps': 'KeepsNone', 'acts': 'ActsRO', 'tree': 'C', 'emit': True},
